@@ -19,6 +19,7 @@ import pandas as pd
 from taskchain import Task, ModuleTask, DoubleModuleTask, InMemoryData
 from taskchain.data import DirData, ContinuesData, GeneratedDataLazy, ListOfNumpyData
 from taskchain.parameter import Parameter, InputTaskParameter, AutoParameterObject, ParameterObject
+from taskchain.chain import ChainObject
 
 from ..canon import tcanon
 
@@ -64,6 +65,17 @@ class LabObjSet(AutoParameterObject):
         self.tags = set(tags)
 
 
+class LabChainObj(AutoParameterObject, ChainObject):
+    """parameter object that wants to see the chain"""
+
+    def __init__(self, a):
+        self.a = a
+        self.inited = False
+
+    def init_chain(self, chain):
+        self.inited = True
+
+
 class LabObjPlain(ParameterObject):
     def __init__(self, x):
         self.x = x
@@ -102,6 +114,8 @@ def pcanon(v):
         return ['obj', 'LabObjPlain', {'x': pcanon(v.x)}]
     if isinstance(v, LabObjSet):
         return ['obj', 'LabObjSet', {'tags': sorted(v.tags)}]
+    if isinstance(v, LabChainObj):
+        return ['obj', 'LabChainObj', {'a': pcanon(v.a), 'inited': bool(v.inited)}]
     if isinstance(v, list):
         return ['l', [pcanon(x) for x in v]]
     if isinstance(v, dict):
@@ -117,6 +131,8 @@ def received_canon(v):
         return ['obj', 'LabObjPlain', {'x': received_canon(v.x)}]
     if isinstance(v, LabObjSet):
         return ['obj', 'LabObjSet', {'tags': sorted(v.tags)}]
+    if isinstance(v, LabChainObj):
+        return ['obj', 'LabChainObj', {'a': received_canon(v.a), 'inited': bool(v.inited)}]
     if isinstance(v, list):
         return ['l', [received_canon(x) for x in v]]
     if isinstance(v, dict):
@@ -134,8 +150,8 @@ def observed_form(value):
         if value.is_dir():
             return {'__dir__': {str(p.relative_to(value)): p.read_bytes().decode('latin-1') for p in sorted(value.rglob('*')) if p.is_file()}}
         return ['path', str(value)]
-    if callable(value) and not isinstance(value, type):
-        return ['lazy', list(value())]
+    if callable(value) and getattr(value, '__name__', '') == '<lambda>' and 'taskchain' in getattr(value, '__module__', ''):
+        return ['lazy', list(value())]    # GeneratedDataLazy hands out a reader lambda
     return value
 
 
@@ -372,3 +388,27 @@ def build_module(g, specs):
         specs = json.loads(specs)
     for ts in specs:
         g[ts['cls']] = make_task_class(ts, g['__name__'], g)
+
+
+def expected_vdigest_for(task_cls, param_values: dict, explicit_values: list):
+    """digest of the value `task_cls` must return when run receives these parameter values and these input values
+    (the same computation lab_run performs; used to judge test helpers fed with arbitrary mock values)"""
+    ts = task_cls.LAB_SPEC
+    persisted = {}
+    for p in ts['params']:
+        v = param_values[p['name']]
+        if p.get('ignore'):
+            continue
+        if p.get('drop_default') and 'default' in p and v == p['default']:
+            continue
+        persisted[p['name']] = pcanon(v)
+    explicit = []
+    it = iter(explicit_values)
+    reads = ts.get('reads')
+    for i, inp in enumerate(ts['inputs']):
+        if inp['form'] in ('pattern', 'pattern_all'):
+            continue
+        v = next(it)
+        explicit.append(None if (reads is not None and i not in reads) else vdigest(v))
+    h = descriptor_hash(task_cls.slugname, persisted, explicit, [])
+    return expected_vdigest(ts['data_kind'], h)
